@@ -191,6 +191,30 @@ def run(model, rep, tier):
                               f"`{what}` mutates a node that may be {', '.join(badk)} (shared with the published version): readers would see the write",
                               stmt=what)
     rep.floor("R-10.3", n_mut, 8)
+    # `changed` only grows during a transaction (commit decides on it and freezing iterates it)
+    for cq in VERSION_CLASSES[1:]:
+        ci = model.cls(cq)
+        for name, f in sorted(ci.methods.items()):
+            for nd in ast.walk(f.node):
+                if isinstance(nd, ast.Call) and isinstance(nd.func, ast.Attribute) and src(nd.func.value) == "self.changed" and nd.func.attr in ("discard", "remove", "clear", "pop", "difference_update", "intersection_update"):
+                    rep.bad("R-10.3", f.qualname, where(f, nd), f"self.changed.{nd.func.attr}() forgets a touched name: the commit can be skipped (`len(changed) > 0`) or the node left unfrozen", stmt=f"changed.{nd.func.attr}")
+                if isinstance(nd, ast.Assign) and any(src(t) == "self.changed" for t in nd.targets) and name != "__init__":
+                    rep.bad("R-10.3", f.qualname, where(f, nd), "self.changed is rebound outside the constructor", stmt="rebind changed")
+    # hooks forward every parameter (a dropped `covers`/`rdtype` silently widens or narrows the lookup)
+    n_fw = 0
+    for cq, names in (("dns.zone.Version", ("get_node", "get_rdataset")), ("dns.zone.WritableVersion", ("put_rdataset", "delete_rdataset", "delete_node", "_maybe_cow", "_maybe_cow_with_name")),
+                      ("dns.btreezone.WritableVersion", ("put_rdataset", "delete_rdataset", "delete_node", "_maybe_cow_with_name", "update_glue_flag")),
+                      ("dns.zone.Transaction", ("_get_rdataset", "_put_rdataset", "_delete_name", "_delete_rdataset", "_name_exists", "_get_node"))):
+        ci = model.cls(cq)
+        for mname in names:
+            f = ci.methods.get(mname)
+            if f is None:
+                continue
+            for p in [x for x in f.params() if x != "self"]:
+                n_fw += 1
+                used = any(isinstance(nd, ast.Name) and nd.id == p and isinstance(nd.ctx, ast.Load) for nd in ast.walk(f.node))
+                rep.check(used, "R-10.5", f.qualname, where(f, f.node), f"parameter `{p}` is used", f"parameter `{p}` is never used: the operation ignores part of its key/argument", stmt=f"uses {p}")
+    rep.floor("R-10.5-forward", n_fw, 25)
     # who may replace the published map
     zone = model.cls("dns.zone.Zone")
     for ci in [zone] + model.subclasses(zone):
@@ -528,4 +552,8 @@ WITNESSES = [
      "new": "        name = self._validate_name(name)\n        node = self._maybe_cow(name)\n        node.delete_rdataset(self.zone.rdclass, rdtype, covers)"},
     {"id": "c10-cow-condition", "rule": "R-10.5", "file": "dns/zone.py", "expect": "fires",
      "old": "if node is None or name not in self.changed:", "new": "if node is None:"},
+    {"id": "c10-changed-discard", "rule": "R-10.3", "file": "dns/zone.py", "expect": "fires",
+     "old": "        if len(node) == 0:\n            del self.nodes[name]\n\n\n@dns.immutable.immutable\nclass ImmutableVersion", "new": "        if len(node) == 0:\n            del self.nodes[name]\n            self.changed.discard(name)\n\n\n@dns.immutable.immutable\nclass ImmutableVersion"},
+    {"id": "c10-covers-dropped", "rule": "R-10.5", "file": "dns/zone.py", "expect": "fires",
+     "old": "        return node.get_rdataset(self.zone.rdclass, rdtype, covers)\n\n    def keys(self):", "new": "        return node.get_rdataset(self.zone.rdclass, rdtype)\n\n    def keys(self):"},
 ]
